@@ -522,4 +522,20 @@ theorem nuniq_column_roundtrip (cells : List Cell) (h : ∀ c ∈ cells, c.2 < 1
 /-! Non-vacuity: a two-depth MOC with an unoccupied deepest level. -/
 example : encodeToks 3 [⟨1, 2, 3⟩, ⟨2, 0, 5⟩] = [.depth 1, .cell 2, .depth 2, .range 0 5, .depth 3] := by decide
 
+/-- **The NUNIQ file read back as cells**: the file written for the cell view of an S-MOC (one NUNIQ number per
+    row) is made of 2880-byte blocks, declares one row per cell, and the numbers read from its
+    `NAXIS1 × NAXIS2` data bytes decode (`from_uniq_hpx`) to exactly the cells — for every list of cells inside
+    the HEALPix domain whose numbers fit the index type. -/
+theorem fits_nuniq_file_cells (w depth : Nat) (cells : List Cell) (hd : depth ≤ 255) (hw : w / 8 < 10 ^ 20)
+    (hn : cells.length < 10 ^ 20) (hdom : ∀ c ∈ cells, c.2 < 12 * 4 ^ c.1)
+    (hfit : ∀ c ∈ cells, uniqHpx c.1 c.2 < 256 ^ (w / 8)) :
+    (Moc.Fits.readWords (Moc.Fits.nuniqFile w depth (cells.map fun c => uniqHpx c.1 c.2))).map
+      (fun x => (x.1, x.2.1, x.2.2.map fromUniqHpx)) = some (w / 8, cells.length, cells) := by
+  have h := (fits_nuniq_file w depth (cells.map fun c => uniqHpx c.1 c.2) hd hw (by simpa using hn) (by
+    intro x hx
+    obtain ⟨c, hc, rfl⟩ := List.mem_map.1 hx
+    exact hfit c hc)).2
+  rw [h]
+  simp only [Option.map_some, List.length_map, nuniq_column_roundtrip cells hdom]
+
 end Moc.Codec.C07
